@@ -343,6 +343,11 @@ fn defs(thorough: bool) -> Vec<SetDef> {
             plan: Plan { deliveries: vec![Cut1], pend: Pend::Subsets, trunc: Trunc::EveryOffset, progs: Progs::ReadAll, limits: new.clone() },
         });
         v.push(SetDef {
+            name: "D3:every-truncation-offset-x-every-1-cut-on-2-field-form-data-bodies",
+            bodies: vec![BodySet { min_fields: 2, max_fields: 2, contents: core_contents(), flavours: vec![Form], boundaries: vec![0], pre_epi: vec![(0, 0)] }],
+            plan: Plan { deliveries: vec![Cut1], pend: Pend::NoneAll, trunc: Trunc::EveryOffset, progs: Progs::ReadAll, limits: new.clone() },
+        });
+        v.push(SetDef {
             name: "E3:every-2-cut-on-2-field-form-data-bodies",
             bodies: vec![BodySet { min_fields: 2, max_fields: 2, contents: core_contents(), flavours: vec![Form], boundaries: vec![0], pre_epi: vec![(0, 0)] }],
             plan: Plan { deliveries: vec![Cut2], pend: Pend::NoneAll, trunc: Trunc::Full, progs: Progs::ReadAll, limits: new.clone() },
